@@ -1267,11 +1267,28 @@ theorem step_fastaTag (ver : List Nat) (feats : List GffText.Feature) :
 def renderWithFasta (ver : List Nat) (rows : List GffText.Row) (ft : List Nat) : List Nat :=
   GffText.render ver rows ++ (GffText.fastaTag ++ [10]) ++ ft
 
+/-- the scanner's error on a text that begins with LF-terminated short lines: only the rest counts -/
+theorem tooLong_lf (lines : List (List Nat)) (rest : List Nat)
+    (h : ∀ l ∈ lines, CleanLine l ∧ l.length < GffText.maxToken) :
+    GffText.tooLong (lfText lines ++ rest) = GffText.tooLong rest := by
+  unfold GffText.tooLong
+  rw [splitLinesAux_lf lines rest (fun l hl => (h l hl).1.1), List.any_append]
+  have : (lines.any fun l => decide (GffText.maxToken ≤ l.length)) = false := by
+    rw [List.any_eq_false]
+    intro l hl
+    have := (h l hl).2
+    simp only [decide_eq_true_eq]
+    omega
+  rw [this, Bool.false_or]
+
 /-- **gff_with_fasta** - ReadGFF on such a file: the header and features of the round-trip theorem, and for the FASTA
-map whatever the section reader makes of the scanned lines of `ft` -/
+map whatever the section reader makes of the scanned lines of `ft`; since the repair of the reader (Scanner.Err is
+looked at after the loop) a line of `maxToken` bytes or more in `ft` is reported as bufio.ErrTooLong, where the
+statement before the repair had the section reader run on the lines before that line -/
 theorem readGFF_withFasta (ver : List Nat) (rows : List GffText.Row) (ft : List Nat) (hv : GffRT.VerOk ver)
     (hne : rows ≠ []) (h : ∀ r ∈ rows, GffRT.RowOk r) :
     GffText.readGFF (renderWithFasta ver rows ft) =
+      if GffText.tooLong ft then .error .tooLong else
       match GffText.readFastaSection (GffText.scanLines ft) with
       | .error e => .error e
       | .ok fa => .ok { GffRT.expected ver rows with fasta := fa } := by
@@ -1293,13 +1310,14 @@ theorem readGFF_withFasta (ver : List Nat) (rows : List GffText.Row) (ft : List 
       subst hl
       exact ⟨GffRT.cleanLine_of _ (by decide), by decide⟩
   unfold GffText.readGFF
-  rw [etext, scanLines_lf _ ft hlines]
-  unfold GffText.readLines
+  rw [etext, scanLines_lf _ ft hlines, tooLong_lf _ ft hlines]
   rw [List.append_assoc, loop_append, loop_rendered ver rows hv hne h]
   simp only [List.singleton_append, GffText.loop, step_fastaTag]
   rw [loop_inFasta _ _ rfl]
-  simp only [GffText.finish, GffRT.st1, List.nil_append]
-  cases GffText.readFastaSection (GffText.scanLines ft) <;> rfl
+  cases GffText.tooLong ft
+  · simp only [GffText.finish, GffRT.st1, List.nil_append, Bool.false_eq_true, if_false]
+    cases GffText.readFastaSection (GffText.scanLines ft) <;> rfl
+  · rfl
 
 
 theorem scanLines_short (ft : List Nat) (hshort : ∀ l ∈ splitLinesAux ft [], l.length < GffText.maxToken) :
@@ -1311,7 +1329,7 @@ theorem scanLines_short (ft : List Nat) (hshort : ∀ l ∈ splitLinesAux ft [],
 
 /-- **gff_fasta_from_bytes** - a GFF3 file with a FASTA section, read from its bytes, against the FASTA model
 `readFastaList` run on the bytes of the section alone. Hypotheses on the section `ft`: every line fits the scanner's
-buffer (else reading stops there, see `long_line_stops_reading`), at least one line, no line ending in CR CR, header
+buffer (else the reader reports bufio.ErrTooLong, see `GffRT.long_line_reported`), at least one line, no line ending in CR CR, header
 lines without wide white space. When the model reads records, ReadGFF returns the features of the rows and exactly
 those records (decoded, keyed by ID, a later record replacing an earlier one with the same ID) ; when the model
 fails, ReadGFF fails with the corresponding class. -/
@@ -1324,7 +1342,8 @@ theorem gff_fasta_from_bytes (ver : List Nat) (rows : List GffText.Row) (ft : Li
         .ok { GffRT.expected ver rows with fasta := GffText.faMap (recs.map conv) [] }
     | .error e' => ∃ e, GffText.readGFF (renderWithFasta ver rows ft) = .error e ∧ ErrRel e e' := by
   have hs := fasta_section_agrees ft hne' hcr hh
-  rw [readGFF_withFasta ver rows ft hv hne h, scanLines_short ft hshort]
+  rw [readGFF_withFasta ver rows ft hv hne h, GffRT.tooLong_false_of_short ft hshort, scanLines_short ft hshort]
+  simp only [Bool.false_eq_true, if_false]
   cases hm : readFastaList false ft with
   | ok recs =>
     rw [hm] at hs
